@@ -84,6 +84,16 @@ def bug_variants():
     return bad
 
 
+def walleye_variants():
+    bad = []
+    for v, want in (("noanswer", "Temporal"), ("eofspins", "Temporal"), ("fallback", "Temporal"), ("stale", "Temporal"), ("sharedchan", "ChannelFresh")):
+        r = vcommon.tlc("Walleye", "MC_Walleye_%s.cfg" % v, workers=8, xmx="8g", timeout=1200)
+        ok = bool(re.search(r"Temporal propert(y|ies) .*(was|were) violated", r["out"])) if want == "Temporal" else ("Invariant %s is violated" % want in r["out"])
+        if not ok:
+            bad.append((v, "expected a violation of %s" % want))
+    return bad
+
+
 def run(quick=True):
     rc = 0
     bad = sany()
@@ -99,6 +109,10 @@ def run(quick=True):
     b = bug_variants()
     if b:
         print("bug-variant configurations did not fail as expected:", b)
+        rc = 2
+    b = walleye_variants()
+    if b:
+        print("Walleye bug-variant configurations did not fail as expected:", b)
         rc = 2
     import checks_search
     if hasattr(checks_search, "selfcheck"):
